@@ -393,6 +393,21 @@ func samFloat(r *rand.Rand) float64 {
 	}
 }
 
+// samLong: a record whose line is longer than bufio's 4096-byte buffer / than 64 KiB (long reads)
+func samLong(r *rand.Rand, n int) *sam.SAM {
+	s := samRecord(r)
+	b := make([]byte, n)
+	for i := range b {
+		b[i] = "ACGT"[r.Intn(4)]
+	}
+	s.Seq = string(b)
+	for i := range b {
+		b[i] = byte(33 + r.Intn(94))
+	}
+	s.Qual = string(b)
+	return s
+}
+
 func samRecord(r *rand.Rand) *sam.SAM {
 	s := &sam.SAM{Qname: samText(r, false), Flag: sam.Flag(samInt(r)), Rname: samText(r, true), Pos: samInt(r), Mapq: samInt(r),
 		Cigar: samText(r, true), Rnext: samText(r, true), Pnext: samInt(r), Tlen: samInt(r), Seq: samText(r, true), Qual: samText(r, true),
@@ -467,8 +482,16 @@ func samDrive(args []string) error {
 			file = append(file, '\n')
 			want = append(want, samHdrItem(h))
 		}
+		type held struct {
+			ev samEvent
+			bm []byte
+		}
+		var hs []held // MarshalText results are looked at only after all records were marshalled and written
 		for i := 0; i < nr; i++ {
 			s := samRecord(r)
+			if sid%8 == 1 && i == nr/2 {
+				s = samLong(r, []int{2500, 33000, 70000}[(sid/8)%3])
+			}
 			before := samProject(s)
 			ev := samEvent{Sid: sid, Op: "write", Mode: "write", Rec: before, Bytes: []int{}, Floats: [][]int{}, Want: []samItem{}, Items: []samItem{}, Clean: []int{}}
 			buf := &bytes.Buffer{}
@@ -483,14 +506,18 @@ func samDrive(args []string) error {
 			if p2 || !samItemEq(before, samProject(s), false) {
 				ev.Panic = true
 			}
-			ev.BW, ev.BM = ints(buf.Bytes()), ints(bm)
-			tw.emit(ev)
+			ev.BW = ints(buf.Bytes())
+			hs = append(hs, held{ev, bm})
 			line := buf.Bytes()
 			if crlf {
 				line = []byte(strings.Replace(string(line), "\n", "\r\n", 1))
 			}
 			file = append(file, line...)
 			want = append(want, before)
+		}
+		for _, h := range hs {
+			h.ev.BM = ints(h.bm)
+			tw.emit(h.ev)
 		}
 		for _, mode := range []string{"header", "records"} {
 			ev := samEvent{Sid: sid, Op: "read", Mode: mode, Rec: empty, BW: []int{}, BM: []int{}, Bytes: ints(file),
